@@ -34,6 +34,7 @@ type ParserT struct {
 	endCol        int
 	expression    []rune
 	subExp        bool
+	subExpClosed  bool
 	p             *lang.Process
 	ignoreLf      bool
 	_strictTypes  any
